@@ -125,6 +125,9 @@ pub struct World<'a> {
     pub log: Vec<String>,
     slow_call: Option<(usize, u64)>,
     cur: usize,
+    /// C11: a clock fault (mtime tie / regress / list deleted) happened; divergences after
+    /// it are informational.
+    clock_fault: Option<&'static str>,
 }
 
 fn site_of(msg: &str) -> String {
@@ -186,6 +189,7 @@ impl<'a> World<'a> {
             log: Vec::new(),
             slow_call: None,
             cur: 0,
+            clock_fault: None,
         }
     }
 
@@ -452,6 +456,15 @@ impl<'a> World<'a> {
         match kind {
             TwinKind::Equal => {
                 self.stats.bump("oracle.twin_compared");
+                if main != twin && self.scenario == Scenario::Reconfigure && self.clock_fault.is_some() {
+                    // not judged: "edited" presupposes that the modification time advanced
+                    let k = self.clock_fault.unwrap();
+                    self.stats.bump(&format!("info.divergence_on_{}", k));
+                    for s in self.slots.iter_mut().flatten() {
+                        s.twin = None;
+                    }
+                    return Ok(());
+                }
                 if main != twin {
                     let clause = match self.scenario {
                         Scenario::UserfileFaults => "F2-unreadable-as-absent",
@@ -574,7 +587,14 @@ impl<'a> World<'a> {
         };
         let typed = s.fe.typed.clone();
         let prefix = if self.scenario == Scenario::UserfileFaults { "F3-" } else { "" };
-        match s.lm.expect_for(&typed) {
+        let expect = match s.lm.expect_for(&typed) {
+            // Under C10 the candidate lists themselves may change (the editor rewrites the
+            // auto-correct list, files are damaged and healed), so a remembered choice
+            // can only be demanded while it is still offered.
+            Expect::Exactly(c) if self.scenario == Scenario::UserfileFaults => Expect::IfOffered(c),
+            e => e,
+        };
+        match expect {
             Expect::Exactly(c) => {
                 let c = c.to_string();
                 self.stats.evaluations += 1;
@@ -686,8 +706,7 @@ impl<'a> World<'a> {
         let shown = obs.shown_text().to_string();
 
         // C13 is judged on every reph press from observations alone.
-        if matches!(self.scenario, Scenario::Reph | Scenario::FixedRules)
-            && value.as_deref() == Some(fixedmodel::REPH)
+        if self.scenario == Scenario::Reph && value.as_deref() == Some(fixedmodel::REPH)
         {
             let p = before.shown_text().to_string();
             self.judge_reph(&spec, &p, &shown, what)?;
@@ -1335,7 +1354,11 @@ impl<'a> World<'a> {
         }
         self.stats.bump("oracle.F4_new_context_judged");
         if let ObsKind::List { cands, sel, .. } = &last.kind {
-            if cands.get(*sel).map(|s| s.as_str()) != Some(chosen) {
+            // (the new context may have loaded a newer auto-correct list than the live one
+            // had, so the choice is only demanded if it is offered there at all)
+            if !cands.iter().any(|c| c == chosen) {
+                self.stats.bump("oracle.F4_choice_not_offered_in_new_context");
+            } else if cands.get(*sel).map(|s| s.as_str()) != Some(chosen) {
                 return Err(Stop::Violation(
                     "F4-recovery-choice-durable".into(),
                     format!(
@@ -1438,6 +1461,10 @@ impl<'a> World<'a> {
         });
         let mut slot = self.slots[h as usize].take().unwrap();
         slot.fe.reset();
+        if self.scenario == Scenario::UserfileFaults && old.layout != cfg.layout {
+            // a layout change replaces the method object: the new one knows what the disk holds
+            slot.lm = self.durable.clone().unwrap_or_default();
+        }
         let r = self.attach_auto_twin(&mut slot);
         if self.scenario == Scenario::UserfileFaults {
             // a reload over an unreadable list only has to survive (F1); no twin.
@@ -1557,6 +1584,14 @@ impl<'a> World<'a> {
             Mt::Tie => self.stats.bump("fault.mtime_tie"),
             Mt::Back(_) => self.stats.bump("fault.mtime_regress"),
             Mt::Now => {}
+        }
+        if file == FileId::Autocorrect {
+            match (mt, st, &cur) {
+                (Mt::Tie, _, Some(_)) => self.clock_fault = Some("mtime_tie"),
+                (Mt::Back(_), _, Some(_)) => self.clock_fault = Some("mtime_regress"),
+                (_, FileSt::Absent, Some(_)) => self.clock_fault = Some("autocorrect_deleted"),
+                _ => {}
+            }
         }
         self.note(|| {
             format!(
